@@ -115,7 +115,7 @@ func twoSourceInfos() string {
 // concurrency) and byte-identical generated code in fresh processes.
 func c06(tier string) {
 	ctx := lib.NewCtx("C06", tier)
-	ctx.Rule = "profiles with 3-5 quantified constraints under one propertyConstraints mapping (also inside and/or/not), several validations per level and many prefixes, plus repository fixture profiles with their data and documents with several source-information nodes; per (profile, data): digests of R in-process repetitions, of the same call after all other pairs of the worker ran in between, of K fresh processes, of 16 concurrent goroutines in a fresh process, and per profile of K fresh `acv generate` processes; the number of distinct digests per input must be 1; " +
+	ctx.Rule = "profiles with 3-5 quantified constraints under one propertyConstraints mapping (also inside and/or/not), several validations per level and many prefixes, plus repository fixture profiles with their data and documents with several source-information nodes; per (profile, data): digests of R in-process repetitions, of the same call after all other pairs of the worker ran in between, of K fresh processes (each in another working directory, time zone and locale), of 16 concurrent goroutines in a fresh process, and per profile of K fresh `acv generate` processes; the number of distinct digests per input must be 1; " +
 		"non-trivial & distinct = (profile, data) pair whose report has results or whose profile has >=3 keys in one mapping"
 	ctx.Assumptions = []string{"detection of an order-dependent generator is probabilistic per run: with >=3 keys in a Go map one repetition changes the order with probability >=1/2; R repetitions x K processes per input are reported as counters"}
 	n := ctx.N(64, 640)
@@ -213,7 +213,11 @@ func c06(tier string) {
 		if self != "" && i%2 == 0 {
 			seen := map[string]int{pr.digest: 1}
 			for k := 0; k < K; k++ {
-				out, err := exec.Command(self, "child", "report", pf, df).Output()
+				// every fresh process runs somewhere else, in another time zone and locale
+				fc := exec.Command(self, "child", "report", pf, df)
+				fc.Dir = []string{tmp, "/", os.TempDir(), filepath.Dir(self)}[k%4]
+				fc.Env = append(os.Environ(), []string{"TZ=UTC", "TZ=Asia/Kolkata", "TZ=America/St_Johns", "TZ=Pacific/Kiritimati"}[k%4], []string{"LANG=C", "LANG=tr_TR.UTF-8", "LC_ALL=de_DE.UTF-8", "LANG=ja_JP.UTF-8"}[(k+1)%4])
+				out, err := fc.Output()
 				if err != nil {
 					ctx.Inconclusive("fresh-process helper failed: " + err.Error())
 					break
@@ -246,7 +250,10 @@ func c06(tier string) {
 		if acv != "" && i%2 == 1 {
 			seen := map[string]int{}
 			for k := 0; k < K+1; k++ {
-				out, err := exec.Command(acv, "generate", pf).Output()
+				gc := exec.Command(acv, "generate", pf)
+				gc.Dir = []string{tmp, "/", os.TempDir(), filepath.Dir(acv)}[k%4]
+				gc.Env = append(os.Environ(), []string{"TZ=UTC", "TZ=Asia/Kolkata", "TZ=America/St_Johns", "TZ=Pacific/Kiritimati"}[k%4])
+				out, err := gc.Output()
 				if err != nil {
 					break
 				}
